@@ -1642,6 +1642,30 @@ impl Analyzable for Program {
             }
         }
 
+        // a constructor names its case, and a case its fields: with two of one name the
+        // index and the fields of different declarations would be mixed
+        for type_def in self.types.iter() {
+            let mut case_names = std::collections::HashSet::new();
+
+            for case in type_def.cases.iter() {
+                if !case_names.insert(case.name.value.as_str()) {
+                    duplicates
+                        .errors
+                        .push(Error::DuplicateDefinition(case.name.value.clone()));
+                }
+
+                let mut field_names = std::collections::HashSet::new();
+
+                for field in case.fields.iter() {
+                    if !field_names.insert(field.name.value.as_str()) {
+                        duplicates
+                            .errors
+                            .push(Error::DuplicateDefinition(field.name.value.clone()));
+                    }
+                }
+            }
+        }
+
         for party in self.parties.iter() {
             scope.track_party_def(party);
         }
